@@ -221,6 +221,8 @@ func runScopeCase(w *out.W, id string, q *string, mode migrate.PlanMode, cs []sc
 		e, o := len(specNamesWithoutOthers(cs)), len(specNamesWithoutEnums(cs))
 		cls := "scope-accepts-cross-schema"
 		switch {
+		case len(names) <= 1:
+			cls = "scope-accepts-schema-change" // Add/Drop/ModifySchema that must be refused
 		case base > 1:
 		case e > 1 && o <= 1:
 			cls = "scope-accepts-cross-schema-enum"
